@@ -44,6 +44,13 @@ def check(tier, seed):
                     else:
                         cases.append({'line': f"sk_rt {s} bytes:{key.hex()}", 'tag': f'in-range field {vec} eta={eta}: accepted and re-serialises (checked build: no self-check panic)',
                                       'want': 'ok ' + key.hex(), 'model': v == 0 and ci == 0 and pi == 0})
+        # every field of s1 and s2 holding the same code, for every code of the field width; every t0 field the same code
+        for tag, key, ok in fam.constant_field_keys(s, sk):
+            assert R.sk_fields_in_range(p, key) == ok
+            if ok:
+                cases.append({'line': f"sk_rt {s} bytes:{key.hex()}", 'tag': 'constant fields, in range: accepted and re-serialises', 'want': 'ok ' + key.hex(), 'model': 'field = 0' in tag})
+            else:
+                cases.append({'line': f"sk_from {s} bytes:{key.hex()}", 'tag': 'constant fields, out of range', 'want': 'err', 'model': False})
         # a whole polynomial out of range (256 bad fields), and the all-FF key
         for tag, key in fam.whole_poly_bad_keys(s, sk):
             assert not R.sk_fields_in_range(p, key)
